@@ -90,3 +90,21 @@ theorem C07_one_frame_per_nonempty_sink (s : Stream) (sk : Sink)
     exact ⟨h1, h2, h3.enrolled.trans henr, h3.kind, h3.cls⟩
 
 end Jelly
+
+namespace Jelly
+
+/-- Known finding `C07-metadata-only-first-frame-of-10-bytes`, checked by the kernel on the model: the same two frames —
+    a leading frame that carries only metadata, then an options row and one triple — parse to the triple when the leading
+    frame is 9 bytes long, and fail with `DecodeError` when it is 10 bytes long (the stream then begins `0A 7A`, which the
+    three-byte detector reads as a non-delimited frame). The byte-level theorems (`C08_hint_delimited`, `C01_*_bytes`,
+    `C04_bytes_*`) carry the hypothesis that excludes it: the first frame is empty or starts with a row. -/
+theorem C07_known_metadata_only_first_frame :
+    ((parseFlat .seekable [9, 122, 7, 10, 1, 107, 18, 2, 109, 109,
+        23, 10, 8, 10, 6, 16, 1, 72, 8, 120, 1, 10, 11, 18, 9, 18, 1, 97, 50, 1, 98, 82, 1, 99]).err = none ∧
+     (parseFlat .seekable [9, 122, 7, 10, 1, 107, 18, 2, 109, 109,
+        23, 10, 8, 10, 6, 16, 1, 72, 8, 120, 1, 10, 11, 18, 9, 18, 1, 97, 50, 1, 98, 82, 1, 99]).events.length = 1) ∧
+    (parseFlat .seekable [10, 122, 8, 10, 1, 107, 18, 3, 109, 109, 109,
+        23, 10, 8, 10, 6, 16, 1, 72, 8, 120, 1, 10, 11, 18, 9, 18, 1, 97, 50, 1, 98, 82, 1, 99]).err = some .decodeError := by
+  decide +kernel
+
+end Jelly
